@@ -25,3 +25,4 @@ echo "== check $PROP against the change"
 git -C /repo apply $OUT/patch.diff && (cd /verif && ./check $PROP quick 2>&1 | grep -v "^KNOWN" | cut -c1-330 | tail -12); git -C /repo checkout -- . ; git -C /repo status --short | head -3
 # the evidence written by the run against the seeded tree must not stay: restore the committed record
 (cd /verif && git checkout -- evidence/$PROP.json 2>/dev/null; true)
+(cd /verif && git clean -fdq replays/ 2>/dev/null; true)
